@@ -31,6 +31,12 @@ impl Property for C07 {
             Tier::Thorough => PropConfig { cases: 3200000, max_tape: 500, shards: 16 },
         }
     }
+    fn prelude(&self, reg: &Registry, shard: u32, _nshards: u32, _tier: Tier, st: &mut Stats) -> CaseResult {
+        if shard != 0 {
+            return Ok(());
+        }
+        bulk_probe(reg, false, st)
+    }
     fn run_case(&self, reg: &Registry, shape: usize, tape: &[u8], st: &mut Stats) -> CaseResult {
         let sh = &reg.shapes[shape];
         let ty = sh.ty();
